@@ -13,13 +13,25 @@ mkdir -p "$V"
 cd "$W" || exit 2
 git checkout -q -- . ; git clean -fdq -e out -e target >/dev/null 2>&1
 git apply --check "$OUT/patch.diff" || { echo "patch does not apply"; exit 2; }
-cp "$OUT/demo.rs" "$W/$DEST"
-cargo test -p "$CRATE" --test "$TEST" --offline > "$V/demo_without.log" 2>&1; RC_WITHOUT=$?
+place_demo() {
+	mkdir -p "$(dirname "$W/$DEST")"; cp "$OUT/demo.rs" "$W/$DEST"
+	# optional: SEED_MAINRS_LINE = a `#[cfg(test)] mod ...;` line the demo needs in src/main.rs (unit-test demos of the
+	# binary crate); SEED_TEST_CMD = the exact demo command when it is not `cargo test -p <crate> --test <name>`
+	[ -n "${SEED_MAINRS_LINE:-}" ] && echo "$SEED_MAINRS_LINE" >> "$W/src/main.rs"
+	for extra in ${SEED_EXTRA_FILES:-}; do mkdir -p "$W/$(dirname "${extra#*:}")"; cp "$OUT/${extra%%:*}" "$W/${extra#*:}"; done
+}
+clean_tree() { git checkout -q -- . ; git clean -fdq -e out -e target >/dev/null 2>&1; }
+TEST_CMD="${SEED_TEST_CMD:-cargo test -p $CRATE --test $TEST --offline}"
+place_demo
+$TEST_CMD > "$V/demo_without.log" 2>&1; RC_WITHOUT=$?
+clean_tree
 git apply "$OUT/patch.diff"
-cargo nextest run --workspace --no-fail-fast --offline -E "not test(/^seed_/) and not binary(/^seed_/)" > "$V/suite_with.log" 2>&1; RC_SUITE=$?
+# the repository's own suite, unedited (the demonstration is not in the tree for this run)
+cargo nextest run --workspace --no-fail-fast --offline > "$V/suite_with.log" 2>&1; RC_SUITE=$?
 SUITE="$(grep -E 'Summary' "$V/suite_with.log" | tail -1 | sed 's/^ *//')"
-cargo test -p "$CRATE" --test "$TEST" --offline > "$V/demo_with.log" 2>&1; RC_WITH=$?
-git apply -R "$OUT/patch.diff"; rm -f "$W/$DEST"
+place_demo
+$TEST_CMD > "$V/demo_with.log" 2>&1; RC_WITH=$?
+clean_tree
 cp "$OUT/patch.diff" "$V/patch.diff"; cp "$OUT/demo.rs" "$V/demo.rs"; cp "$OUT/demo.md" "$V/demo.md" 2>/dev/null
 RESULTS=""
 for c in $CHECKS; do
@@ -33,7 +45,9 @@ python3 - "$OUT/meta.json" "$V/meta.json" "$RC_WITHOUT" "$RC_SUITE" "$SUITE" "$R
 import json,sys
 src,dst,rc_wo,rc_suite,suite,rc_w,results,dest,crate,test=sys.argv[1:]
 m=json.load(open(src))
-m["demo"]={"place_at":dest,"command":f"cargo test -p {crate} --test {test} --offline"}
+import os
+m["demo"]={"place_at":dest,"command":os.environ.get("SEED_TEST_CMD") or f"cargo test -p {crate} --test {test} --offline"}
+if os.environ.get("SEED_MAINRS_LINE"): m["demo"]["line_appended_to_src_main_rs"]=os.environ["SEED_MAINRS_LINE"]
 m["confirmed"]={"where":"scratch worktree of /repo HEAD (tools/seed_verify.sh); /repo itself untouched",
  "demo_without_change_exit":int(rc_wo),"repository_suite_with_change_exit":int(rc_suite),"repository_suite_with_change":suite,
  "demo_with_change_exit":int(rc_w),
